@@ -112,10 +112,14 @@ def assign_job(N, K, xyz=False, entry='function'):
             out['out'] = co
             dfun = lambda i, j: float(T[int(i)][int(j)])
             out['violated'] = run_oracle(oracle(co['assignments'], co['distances'], cc, dfun))
+            if not metric.untouched():
+                out['violated'].append('arrays returned by the metric were written to')
+                out['signature'] = 'assign:writes-into-metric-result'
             return out
         if exc is not None:
             return PathOut([('no-exception', False)], {}, witness, exc=type(exc).__name__)
         obs = oracle(cells(a), cells(d), cs, M.d)
+        obs.append(('arrays returned by the metric (possibly views of its own table) are not written to', M.untouched()))
         return PathOut(obs, {'assignments': a, 'distances': d}, witness, desc='assign N=%d K=%d' % (N, K))
     return path
 
